@@ -199,6 +199,25 @@ func registerChecks() {
 				}
 				cs = append(cs, c)
 			}
+			// LARGE files (size thresholds: split writes, chunked copies, fast paths): bodies of
+			// 35 KB, 70 KB and 140 KB, formatted and not; the oracle below fails the writer, saves, …
+			for i, n := range []int{1400, 2800, 5500} {
+				for _, nf := range []bool{true, false} {
+					if cx.Tier != "thorough" && !nf && n > 1400 {
+						continue // formatting 140 KB five times over is for the thorough tier
+					}
+					c := &Case{ID: fmt.Sprintf("C10-large-%d-%v-%d", n, nf, i)}
+					c.Ops = append(c.Ops, Op{Kind: OpFile, F: 0, Str: []string{"new", "", "p"}})
+					if nf {
+						c.Ops = append(c.Ops, Op{Kind: OpSet, F: 0, Str: []string{"noformat", "1"}})
+					}
+					for k := 0; k < n; k++ {
+						c.Ops = append(c.Ops, Op{Kind: OpFAdd, F: 0, Args: []Arg{st(kw("Func"), id(fmt.Sprintf("f%d", k)), &Grp{Api: "Params"}, &Grp{Api: "Block", Args: []Arg{st(id("x"), op(":="), mkLit(k))}})}})
+					}
+					c.Ops = append(c.Ops, Op{Kind: OpRender, F: 0})
+					cs = append(cs, c)
+				}
+			}
 			return cs
 		},
 		Oracle: oracleC10,
